@@ -229,6 +229,24 @@ class Enumerator:
                 names.setdefault(c.name, []).append(c)
         for n, cs in names.items():
             self._enum_by_name[n] = cs[0] if len(cs) == 1 else None
+        # callables that never return None: every repo definition of that name has a return annotation without Optional / None
+        self._never_none_calls: Set[str] = set()
+        by_name: Dict[str, List[FuncInfo]] = {}
+        for f in index.functions.values():
+            by_name.setdefault(f.name, []).append(f)
+        for nm, fs in by_name.items():
+            ok = True
+            for f in fs:
+                r = f.node.returns
+                if r is None:
+                    ok = False
+                    break
+                t = ast.unparse(r)
+                if "Optional" in t or "None" in t or t in ("Any", "object"):
+                    ok = False
+                    break
+            if ok and nm not in ("get", "pop", "__init__"):
+                self._never_none_calls.add(nm)
         # enums whose __eq__ compares .value with a str operand (so `"detection" == Task.DETECTION` holds)
         self._str_eq: Dict[str, Dict[str, object]] = {}
         for c in index.classes.values():
@@ -842,6 +860,13 @@ class Enumerator:
     def _never_none(self, e: ast.expr) -> bool:
         if self._const(e) is not None and not is_none(e):
             return True
+        if isinstance(e, ast.Call):
+            f = e.func
+            nm = f.id if isinstance(f, ast.Name) else f.attr if isinstance(f, ast.Attribute) else None
+            if nm in self._never_none_calls:
+                return True
+            if isinstance(f, ast.Name) and f.id in ("len", "int", "float", "str", "list", "tuple", "dict", "set", "abs", "sum", "sorted", "bool"):
+                return True
         return isinstance(e, (ast.List, ast.Dict, ast.Set, ast.Tuple, ast.ListComp, ast.DictComp, ast.JoinedStr, ast.Compare, ast.BoolOp, ast.BinOp, ast.Lambda))
 
     def _truth(self, e: ast.expr, p: Path, fi: FuncInfo, orig: Optional[ast.expr] = None, substituted: bool = False) -> List[Tuple[Path, bool]]:
